@@ -27,7 +27,8 @@ MODEL_FILES = ["Model", "Run"]
 QUOTA = {"quick": {"Field": 3, "Data": 4, "Domain": 2, "Constructs": 2, "*": 1},
          "thorough": {"Field": 21, "Data": 60, "Domain": 12, "Constructs": 12, "*": 16}}
 # labels that are always included (minimised past failures / structurally special)
-ALWAYS = ["g0", "m1", "f6.auxiliarycoordinate0", "data.masked", "array.numpy.masked", "f3c.data", "f1.coordinatereference1",
+ALWAYS = ["g0", "m1", "field.template", "f7", "f1.constructs.filtered", "f0.constructs.filtered2", "f0.constructs.inverse",
+          "f6.auxiliarycoordinate0", "data.masked", "array.numpy.masked", "f3c.data", "f1.coordinatereference1",
           "f1.dimensioncoordinate0", "cellmethod.new", "file-netCDF4-0.data"]
 # file-backed fields re-read every variable for each fingerprint: swept in the thorough tier only
 SLOW = ("file-netCDF4-0", "file-netCDF4-1", "file-h5netcdf-0", "file-h5netcdf-1")
@@ -86,6 +87,8 @@ def where(diff):
     if not diff:
         return "?"
     p = diff[0].split(":")[0].strip("/$.")
+    if p.startswith("["):
+        return p.split("]")[0][:39] + "]"
     for sep in ("/", "["):
         p = p.split(sep)[0] if p.split(sep)[0] else p
     return p[:40] or "?"
@@ -238,6 +241,28 @@ def run(chk, model_ok):
                      f"the sharing pattern of {g['how']}({g['label']} : {g['cls']}) differs from Model.copy",
                      {"correspondence": "C04.Run.check_case", "input": {"label": g["label"], "how": g["how"]},
                       "observed": json.dumps(g["y"])[:1500]})
+    # second pass: the write paths of Model.inplace_table are owned in the real object graphs
+    # (hypothesis `paths_owned` of C04_not_inplace_table)
+    path_lits, path_meta = [], []
+    inplace_all = inv.get("inplace_methods_all", {})
+    for g in meta:
+        if g["how"] != "copy" or g["cls"] not in inplace_all:
+            continue
+        row = ("Data" if g["cls"] == "Data" else "Field" if g["cls"] == "Field"
+               else "PropertiesDataBounds" if g["cls"] in ("DimensionCoordinate", "AuxiliaryCoordinate", "DomainAncillary")
+               else "PropertiesData")
+        if g["cls"] == "Domain":
+            continue
+        path_lits.append(f"({gstr(row)}, {g_obj(g['x'])})")
+        path_meta.append(g)
+    if model_ok and path_lits:
+        bad = lib.coq_bad_indices("C04", REQ, "check_paths", path_lits, chunk=40)
+        ncorr += len(path_lits)
+        for i in bad[:40]:
+            g = path_meta[i]
+            chk.fail("correspondence", "model-vs-impl",
+                     f"a write path of Model.inplace_table is not owned by the copy of {g['label']} : {g['cls']}",
+                     {"correspondence": "C04.Run.check_paths", "input": {"label": g["label"]}})
     if model_ok and sd_lits:
         bad = lib.coq_bad_indices("C04", REQ, "check_set_data", sd_lits, chunk=40)
         ncorr += len(sd_lits)
@@ -290,6 +315,10 @@ def run(chk, model_ok):
         kinds[r.get("kind", "?") + ":" + r.get("dir", "?")] += 1
     skip_list = sorted({f"{r.get('cls')}.{r.get('m')}: {r['skip']}" for r in skipped})
     inplace_methods = sorted({f"{r.get('cls')}.{r.get('m')}" for r in rows if r.get("dir") == "P"})
+    all_inplace = sorted(f"{c}.{m}" for c, ms in inplace_all.items() for m in ms)
+    prows = [r for r in rows if r.get("dir") == "P" and "skip" not in r and "outcome" in r]
+    effective = sorted({f"{r.get('cls')}.{r.get('m')}" for r in prows if r.get("effect")})
+    raising = sorted({f"{r.get('cls')}.{r.get('m')}" for r in prows if r.get("outcome") != "ok" and r.get("v") != 2})
     scribbled = sum(1 for r in cases if r.get("scribbles", 0) > 0)
     distinct = {lib.canon([r.get("label"), r.get("kind"), r.get("m"), r.get("v"), r.get("dir")])
                 for r in cases if r.get("outcome") == "ok" or r.get("dir") == "P"}
@@ -319,6 +348,14 @@ def run(chk, model_ok):
         "cases_where_returned_value_was_mutated": scribbled,
         "methods_with_inplace_found": inplace_methods,
         "inplace_protocol_cases": sum(1 for r in cases if r.get("dir") == "P"),
+        "inplace_methods_by_reflection_all_public_classes": len(all_inplace),
+        "inplace_methods_not_run": sorted(set(all_inplace) - set(inplace_methods)),
+        "inplace_methods_with_an_effective_not_inplace_case": len(effective),
+        "inplace_methods_run_but_never_effective": sorted(set(inplace_methods) - set(effective)),
+        "inplace_methods_with_a_raising_body_case": len(raising),
+        "inplace_cases_by_variant": dict(collections.Counter(str(r.get("v")) for r in prows)),
+        "inplace_cases_with_effect": sum(1 for r in prows if r.get("effect")),
+        "inplace_table_path_checks_vs_model": len(path_lits),
         "inplace_protocol_traces_vs_model": len(plits),
         "skipped_count": len(skip_list),
         "skipped": skip_list[:120],
